@@ -51,6 +51,9 @@ import (
 
 func init() {
 	families["c17"] = c17parent
+	// the label the runner gives the race-detector pass; `./check replay` re-executes a recorded case under that
+	// name with the plain binary, which then hands the children to the cached race binary next to it
+	families["c17race"] = c17parent
 	caseFamilies["c17case"] = &caseFamily{
 		Shard: 1, Par: 8,
 		Count: c17count,
@@ -106,6 +109,11 @@ func c17parent(out *rec.Out, rng *rec.Rng, tier string, stats map[string]int) {
 	dir := c17dir()
 	self, _ := os.Executable()
 	race := c17raceBuild()
+	if !race && len(os.Args) > 0 && os.Args[len(os.Args)-1] == "c17race" {
+		if cand := filepath.Join(filepath.Dir(self), "vh-race-C17"); c17exists(cand) {
+			self, race = cand, true
+		}
+	}
 	var idxs []int
 	for i := 0; i < n; i++ {
 		if out.Only > 0 && i+1 != out.Only {
@@ -171,6 +179,11 @@ func c17parent(out *rec.Out, rng *rec.Rng, tier string, stats map[string]int) {
 		}
 		out.End()
 	}
+}
+
+func c17exists(p string) bool {
+	_, err := os.Stat(p)
+	return err == nil
 }
 
 func c17seedFromArgs() uint64 {
@@ -250,6 +263,7 @@ func c17spawn(self, dir string, seed uint64, tier string, idx int, race bool) *c
 	return c
 }
 
+var c17gowrap = regexp.MustCompile(`\.gowrap\d+$`)
 var c17frameFile = regexp.MustCompile(`^\s+(\S+\.go):(\d+)`)
 
 // c17repoFrame: is this (function, file) a frame of the engine itself (not runtime, not a test, not the harness)?
@@ -284,6 +298,8 @@ func c17canonFunc(fn string) string {
 	if i := strings.Index(fn, "["); i >= 0 {
 		fn = fn[:i]
 	}
+	// compiler-generated wrapper of a `go` statement
+	fn = c17gowrap.ReplaceAllString(fn, "")
 	if fn == "" {
 		fn = "?"
 	}
@@ -442,7 +458,7 @@ type c17counters struct {
 func c17runCase(out *rec.Out, idx int, rng *rec.Rng, tier string, stats map[string]int) {
 	kind := c17kinds[idx%len(c17kinds)]
 	cfg := c17cfg{kind: kind, perturb: 1 + rng.Intn(2), readers: 2 + rng.Intn(3), subs: 1 + rng.Intn(2),
-		waiters: 2 + rng.Intn(3), dup: 1 + rng.Intn(2), maxBatch: 2 + rng.Intn(2), unrelated: rng.Intn(3)}
+		waiters: 2 + rng.Intn(3), dup: 1 + rng.Intn(3), maxBatch: 2 + rng.Intn(2), unrelated: rng.Intn(3)}
 	if idx%7 == 0 {
 		cfg.perturb = 0
 	}
